@@ -653,6 +653,50 @@ def k_merge_config(run, case):
         os.remove(cfg_path)
 
 
+def k_null_values(run, case):
+    """
+    Values the user has set include JSON null (an option switched off in a hand-edited file, a
+    hard merge of a file holding null): a soft merge and a version upgrade keep them - a key that is
+    present is not a missing key, whatever its value.
+    """
+    from evo.tools import settings
+    rng = run.rng(case)
+    D = defaults()
+    path = settings_path()
+    cur = dict(D)
+    strs = [k for k, v in D.items() if isinstance(v, str) and not k.startswith(("plot_backend", "console", "logfile"))]
+    nulls = [strs[i] for i in rng.choice(len(strs), size=min(3, len(strs)), replace=False)]
+    for k in nulls:
+        cur[k] = None
+    via = case.get("via") or ["soft_merge", "upgrade"][rng.integers(2)]
+    try:
+        if via == "upgrade":
+            dropped = [k for k in D if k not in nulls and rng.random() < .1]
+            for k in dropped:
+                cur.pop(k)
+            open(path, "w").write(json.dumps(cur, indent=4, sort_keys=True))
+            open(settings.USER_ASSETS_VERSION_PATH, "w").write("v0.0.1-old")
+            rc, err, loaded = fresh_start(os.environ["HOME"])
+            ok_run = rc == 0
+        else:
+            open(path, "w").write(json.dumps(cur, indent=4, sort_keys=True))
+            other = {k: "value_from_the_other_file" for k in nulls[:2]}
+            other["plot_linewidth"] = 9.5
+            op_path = os.path.join(os.environ.get("VMON_WORK", "."), "null_other_%d.json" % case["rs"][-1])
+            open(op_path, "w").write(json.dumps(other))
+            r = cli.run_cli("config", ["set", "-m", op_path, "--soft"])
+            os.remove(op_path)
+            ok_run = r.ok
+        after = load_file()
+        run.seen(case, core.digest(via, nulls), cls=["null values kept: " + via], sample={"via": via, "null_keys": nulls})
+        if run.check(ok_run, "command on settings holding null values succeeds", case, "%s failed" % via, key="null:command-failed"):
+            changed = [(k, after.get(k, "<missing>")) for k in nulls if k not in after or after[k] is not None]
+            run.check(not changed, "a soft merge / upgrade keeps values that are null", case,
+                      "%s replaced the null values of %s" % (via, changed), key="null:value-replaced")
+    finally:
+        settings.reset()
+
+
 FRESH_DRIVER = """
 import sys, json
 sys.argv = ['evo_%(tool)s'] + %(argv)r
@@ -742,7 +786,7 @@ def k_fresh_run(run, case):
         shutil.rmtree(work, ignore_errors=True)
 
 
-KINDS = {"fresh_run": k_fresh_run, "history": k_history, "container": k_container, "generate": k_generate, "merge_config": k_merge_config,
+KINDS = {"null_values": k_null_values, "fresh_run": k_fresh_run, "history": k_history, "container": k_container, "generate": k_generate, "merge_config": k_merge_config,
          "upgrade_then": k_upgrade_then}
 
 GEN_CORPUS = [
@@ -767,6 +811,8 @@ def main(run):
         k_upgrade_then(run, run.case("upgrade_then", i, cmd=["reset_subset", "reset_all", "set"][i % 3], stampless=(i % 4 == 3)))
     for i in run.mine({"quick": 100, "thorough": 2000}[run.tier]):
         k_merge_config(run, run.case("merge_config", i))
+    for i in run.mine({"quick": 16, "thorough": 200}[run.tier]):
+        k_null_values(run, run.case("null_values", i, via=["soft_merge", "upgrade"][i % 2]))
     for i in run.mine({"quick": 9, "thorough": 90}[run.tier]):
         k_fresh_run(run, run.case("fresh_run", i, tool=["ape", "rpe", "traj"][i % 3]))
     run.need("the run plots with the settings of the -c file", "set keeps the key set", "set changes only the named keys", "boolean parameter stays boolean",
